@@ -1,6 +1,7 @@
 import FFVerif.Props.C08
 import FFVerif.Props.C08Inv
 import FFVerif.Props.C08Integrand
+import FFVerif.Props.C09EtmFnShapes
 import FFVerif.Pins.pinIntegrate
 import FFVerif.Pins.pinIdentityElementIndex
 import FFVerif.Pins.C08_infidelity_source_shape
@@ -27,6 +28,8 @@ import FFVerif.Pins.pinGetIntegrand
 #print axioms FFVerif.C08.infidelity_perm_opers_entries
 #print axioms FFVerif.C08.infidelity_traceless_noise_opers
 #print axioms FFVerif.C08.infidelity_branches_agree
+#print axioms FFVerif.C09.decay_amplitudes_posSemidef
+#print axioms FFVerif.C09.summed_decay_amplitudes_posSemidef
 #print axioms FFVerif.C08Integrand.integrand_entries_cm_total
 #print axioms FFVerif.C08Integrand.integrand_entries_cm_correlations_fidelity
 #print axioms FFVerif.C08Integrand.integrand_entries_cm_correlations_generalized
